@@ -71,6 +71,7 @@ class Profile(object):
         self.ref_constraint_rate = 12
         self.via_ref_floor_rate = 30
         self.ext_rate = 35
+        self.choice_tags_ascending_rate = 30
         for k, v in kw.items():
             if not hasattr(self, k):
                 raise AttributeError(k)
@@ -663,6 +664,14 @@ class _G(object):
             tag = self.rand_tag(spec, m.ty, mod, used, cls='CONTEXT' if self.chance(85) else None)
             used.add((tag.cls, tag.num))
             m.ty.tag = tag
+        if node.kind == 'CHOICE' and self.chance(self.p.choice_tags_ascending_rate):
+            # alternatives written in canonical tag order (the common style)
+            order = {'UNIVERSAL': 0, 'APPLICATION': 1, 'CONTEXT': 2, 'PRIVATE': 3}
+            ms = list(node.root or [])
+            keys = sorted((order[m.ty.tag.cls], m.ty.tag.num) for m in ms)
+            inv = {v: k for k, v in order.items()}
+            for m, (c, n) in zip(ms, keys):
+                m.ty.tag = Tag(inv[c], n, m.ty.tag.mode)
         # nested untagged CHOICE members are now tagged themselves: legal.
 
     # ---- spec
